@@ -6,7 +6,7 @@ From Coq Require Import String List NArith Bool.
 From J5V.lib Require Import Outcome Strcase.
 From J5V.model Require Import J5sAst Desc J5sWalk J5sLink J5sConvert J5sContract J5sValid J5sCorr.
 From J5V.gen Require ImportsGen.
-From J5V.proofs Require Import J5sProofs J5sContractProofs J5sWitnessProofs.
+From J5V.proofs Require Import J5sProofs J5sContractProofs J5sLinkProofs J5sWitnessProofs.
 Import ListNotations.
 Local Open Scope N_scope.
 
@@ -60,6 +60,21 @@ Theorem C02_properties_convert : forall snake camel screaming ev ps io,
   forall path num, exists r, cv_props snake camel screaming ev path io num ps = Ok r.
 Proof. intros snake camel screaming ev. exact (proj1 (proj2 (convert_total snake camel screaming ev))). Qed.
 Print Assumptions C02_properties_convert.
+
+(* ---- soundness for whole packages (partial form of the full statement below): whatever the
+   compiler model accepts - conversion of every source file of the package, then the link step -
+   satisfies the structural contract: for every source file there is a generated file
+   <path>.proto in the source's package holding exactly the declared objects, oneofs and enums
+   in order, every field with the declared name, JSON name, number = 1-based position, proto
+   type, cardinality, optionality, every inline type nested under the documented name with the
+   same contract, to any depth.  What is missing for the full statement: acceptance of every
+   valid package (refuted below), and the type-name / import / service / topic clauses, which
+   are tied by the whole-descriptor correspondence and the direct oracle, not by a theorem. *)
+Theorem C02_compile_sound_partial : forall snake camel screaming bd pkg D,
+  compile_package snake camel screaming bd pkg = Ok D ->
+  package_contract snake camel screaming bd pkg D.
+Proof. exact compile_sound. Qed.
+Print Assumptions C02_compile_sound_partial.
 
 (* ---- the property at full strength, and its refutation by the faithful model *)
 Definition C02_full_statement : Prop :=
